@@ -75,7 +75,7 @@ def make_envelope(ctx, d, rng, k, vendor, cls, cid=True, total=None, signed=None
         err = signrun.sign_single(p, q, keys, signed[0], 0x4000AA00 + k, signed[1], "error")
         if err is None and q.exists():
             p = q
-    return p
+    return core.through_link(p, k % 5 == 4)   # every fifth input envelope is named through a symbolic link
 
 
 def stored(data: bytes) -> bytes:
